@@ -9,7 +9,8 @@ VERIF = os.path.dirname(os.path.dirname(os.path.abspath(__file__)))
 BASELINE_OFF = ("cd /repo && /venv/bin/python -m pytest -ra -q -p no:cacheprovider --timeout=900 "
                 "--continue-on-collection-errors")
 
-TB = ("trusted base: the home-made VC generator pvc (AST front end + symbolic evaluator), z3 5.1 / cvc5 1.0.3, "
+TB = ("trusted base: the home-made VC generator pvc (AST front end + symbolic evaluator; it pulls numeric factors out of products and "
+      "quotients, an identity of real arithmetic), z3 5.1 / cvc5 1.0.3, "
       "the numpy/scipy/pandas model of pvc/npmodel.py; ")
 
 CHECKS = {
@@ -22,7 +23,11 @@ CHECKS = {
               "catalogue of use_numba switches is discovered mechanically and must be fully covered."),
         note=(TB + "floats as reals with an explicit NaN flag on the mass-flow column (A1), exp/log/sqrt uninterpreted "
               "(A3), numba implements the Python semantics of the subset (A5). Transient thermal branch and "
-              "_sum_by_group twins are bounded stand-ins, listed separately and not counted as proved."),
+              "_sum_by_group twins are bounded stand-ins, listed separately and not counted as proved. The update-matrix option: "
+              "information-flow contract of build_system_matrix (option and cache cannot reach the load vector) + the cache clauses shared "
+              "with C12 (no stale read, dropped on every exit) are discharged; the lexsort / CSR-pointer code itself is only covered by two "
+              "bounded stand-ins (all pits with <= 3 nodes and <= 2 branches; a call sequence with changed loads); F16 (duplicate COO "
+              "positions) is a known finding of the first."),
         ref="DESIGN.md section 4 C07"),
 }
 
@@ -171,9 +176,13 @@ CHECKS["C01"] = dict(
           "every non-slack node after a full Newton step; source/sink signs and the per-row load term are proved under C09."),
     note=(TB + "compress / np.where / csr_matrix / _sum_by_group by assumed contracts (A4: order-preserving compress with rank inverse, pair "
           "enumeration of A == B[:, None], COO entries with equal position are summed, unique increasing group keys with groupsum a spec-level "
-          "symbol); spsolve exact (A4); requires: as many pressure-controller branches as controlled nodes. L1 is proved by z3 for 0..2 "
-          "branches per side and is the linear-algebra identity sum a (x - dx) = c for J dx = J x - c in general (paper argument). Round-off of "
-          "the linear solve and the result-extraction sums (_sum_by_group internals, pipes with internal sections) are not covered."),
+          "symbol); spsolve exact (A4); requires: as many pressure-controller branches as controlled nodes. The sum lemmas L1 (node / slack "
+          "row exact after a full step, any node degree) and L3 (node balances of a network sum to zero: total feed-in = total signed load) are "
+          "proved in Lean 4 + Mathlib (lean/Lemmas.lean, compiled by setup.sh, hash-stamped; trusted: Lean kernel). Also under contract: the "
+          "LOAD column (reset on every path incl. transient reuse, accumulated per junction), ExtGrid.extract_results (slack mass shared between "
+          "the grids of a node; numpy model of np.unique), result column pairing and forwarding. One bounded stand-in (whole calculations, "
+          "balance from the result tables) doubles as the fallback replay; it is not counted as proved. Round-off of the linear solve and the "
+          "result-extraction sums of pipes with internal sections are not covered."),
     ref="DESIGN.md section 4 C01")
 
 CHECKS["C03"] = dict(
